@@ -9,11 +9,13 @@ import props_dq
 import props_conc
 import props_obj
 import props_fault
+import props_het
 import concengine
 
 SEQ_PLANS = {}
 SEQ_PLANS.update(props_cl.PLANS)
 SEQ_PLANS.update(props_dq.PLANS)
+SEQ_PLANS.update(props_het.PLANS)
 
 CUSTOM = {}   # pid -> function(tier, seed) -> exit code   (engines that are not plan-shaped)
 for _pid, _fn in props_conc.PLANS.items():
